@@ -192,6 +192,21 @@ func startNodeOnce(base string, protected, spin bool) (*node, error) {
 			}
 		}
 	})
+	if err := n.launch(protected, spin); err != nil {
+		return nil, err
+	}
+	mu.Lock()
+	defer mu.Unlock()
+	if n.s == nil {
+		return nil, fmt.Errorf("server.started hook did not fire: /repo not built with -tags verif?")
+	}
+	return n, nil
+}
+
+
+// launch starts Serve on the node's directory and port and waits until it answers.
+func (n *node) launch(protected, spin bool) error {
+	dir := n.dir
 	prot := "no"
 	if protected {
 		prot = "yes"
@@ -206,28 +221,41 @@ func startNodeOnce(base string, protected, spin bool) (*node, error) {
 	for {
 		select {
 		case err := <-n.done:
-			return nil, fmt.Errorf("server exited during start: %v", err)
+			return fmt.Errorf("server exited during start: %v", err)
 		default:
 		}
 		c, err := t38.Dial(n.addr)
 		if err == nil {
 			v, err := c.Do("SERVER")
 			c.Close()
-			if err == nil && v.Kind == '*' {
+			// (a server that loaded a password from its configuration file answers "authentication required")
+			if err == nil && (v.Kind == '*' || (v.Kind == '-' && strings.Contains(v.Str, "authentication required"))) {
 				break
 			}
 		}
 		if time.Now().After(deadline) {
-			return nil, fmt.Errorf("server on %s did not start", n.addr)
+			return fmt.Errorf("server on %s did not start", n.addr)
 		}
 		time.Sleep(2 * time.Millisecond)
 	}
-	mu.Lock()
-	defer mu.Unlock()
-	if n.s == nil {
-		return nil, fmt.Errorf("server.started hook did not fire: /repo not built with -tags verif?")
+	return nil
+}
+
+// restart stops the server and starts it again on the same data directory and port (the next process lifetime: what
+// the configuration file holds is what the server is now).
+func (n *node) restart(protected, spin bool) error {
+	close(n.shutdown)
+	select {
+	case <-n.done:
+	case <-time.After(60 * time.Second):
+		return fmt.Errorf("server on %s did not stop for a restart", n.addr)
 	}
-	return n, nil
+	if n.s != nil {
+		n.s.VerifCloseFiles()
+	}
+	n.shutdown = make(chan bool)
+	n.done = make(chan error, 1)
+	return n.launch(protected, spin)
 }
 
 var stopping sync.WaitGroup
@@ -237,6 +265,9 @@ func (n *node) stop() {
 	select {
 	case <-n.done:
 	case <-time.After(30 * time.Second):
+	}
+	if n.s != nil {
+		n.s.VerifCloseFiles()
 	}
 	t38.SetHook(n.port, nil)
 	os.RemoveAll(n.dir)
@@ -355,6 +386,7 @@ type Env struct {
 	baseDmp string // projection (without deadlines) right after the fixture was (re)loaded
 	Builds  int
 	Repairs int
+	Restarts int // environments whose server was restarted after it was brought into its mode
 }
 
 // NewEnv starts the servers of a mode and brings them into it.
@@ -490,6 +522,29 @@ func (e *Env) build() error {
 		if err := mustOK(e.ctl, "AUTH", e.fx.Vars["pw"]); err != nil {
 			return err
 		}
+	}
+	if e.Builds%2 == 0 && !e.Mode.Follower && (e.Mode.ReadOnly || e.Mode.RequirePass) {
+		// every second environment of these modes is the NEXT process lifetime of the server: READONLY is kept in the
+		// configuration file by the command itself, the password after CONFIG REWRITE
+		if e.Mode.RequirePass {
+			if err := mustOK(e.ctl, "CONFIG", "REWRITE"); err != nil {
+				return err
+			}
+		}
+		e.ctl.Close()
+		if err := e.n.restart(e.Mode.Protected, e.spin); err != nil {
+			return err
+		}
+		if e.ctl, err = t38.Dial(e.n.addr); err != nil {
+			return err
+		}
+		e.ctl.Timeout = 10 * time.Second
+		if e.Mode.RequirePass {
+			if err := mustOK(e.ctl, "AUTH", e.fx.Vars["pw"]); err != nil {
+				return fmt.Errorf("after a restart the configured password is not accepted: %v", err)
+			}
+		}
+		e.Restarts++
 	}
 	return e.verifyMode()
 }
